@@ -824,8 +824,13 @@ def observe(cfg, want):
             P.solvePDE(v3, [P.linearSourceTerm(P.CellVariable(c.m, beta1)),
                             P.constantSourceTerm(P.CellVariable(c.m, gam))])
             obs["f_solve"] = lift.lift_array(np.asarray(v3._value))[0]
+            snap3 = np.asarray(v3._value).tobytes()
             prof = v3.plotprofile()[-1]
             obs["profile"] = lift.lift_array(np.asarray(prof))[0]
+            # reporting is read-only and repeatable: the variable is untouched, a second request gives the same
+            prof2 = v3.plotprofile()[-1]
+            obs["profile_pure"] = bool(np.asarray(v3._value).tobytes() == snap3
+                                       and np.array_equal(np.asarray(prof), np.asarray(prof2), equal_nan=True))
             v4 = P.CellVariable(c.m, inner.copy(), make_bc(c.m, cfg["bc"], d))
             v5 = P.solveExplicitPDE(v4, float(dec(cfg["dt"])), P.constantSourceTerm(P.CellVariable(c.m, gam)))
             obs["f_explicit"] = lift.lift_array(np.asarray(v5._value))[0]
